@@ -27,4 +27,8 @@ def fault_reaches_create_result(case, message, params):
         post_fit = case["k"] > case["n"] - 2 * case["per_eval"]
     else:  # random sub-check: k is computed at run time; the phase is part of the clause id
         post_fit = ".post_fit" in message.split(" | ")[0]
+    if "InitialParameterError" in message and not post_fit:
+        # r6c15B: create_result refusing a run whose first evaluation was fine is not D15 (the injected fault did not
+        # reach create_result; create_result gave up although a good evaluation exists)
+        return False
     return bool(post_fit or "via create_result" in message)
